@@ -273,6 +273,18 @@ def main(tier="quick"):
         nprog += len(texts)
         for t in texts:
             work.append((backend, [t], ("e", "NSA", "Color", "vmfn"), tuple(qgen.method_metadata(a)) + decl))
+    # lambda parameters named like a documented math function the query CALLS (a parameter is never called in func_adl: the
+    # call is the function, the receiver of .eta() is the parameter)
+    for backend in plan:
+        a = qgen.ALPHA[backend]
+        S = f"e.{a.primary}('A')"
+        texts = [f"ds.Select(lambda e: {S}.Select(lambda j: abs(j.eta())))",
+                 f"ds.SelectMany(lambda e: {S}).Where(lambda j: sqrt(j.pt()) > 1).Select(lambda j: abs(j.eta()) + sqrt(j.pt()))",
+                 f"ds.Select(lambda e: {S}.Select(lambda j: j.parts().Select(lambda p: abs(p.eta() - j.eta())).Count()))",
+                 f"ds.Select(lambda e: {S}.Select(lambda j: sqrt(j.pt()))).Select(lambda x: x.Sum())"]
+        nprog += len(texts)
+        for t in texts:
+            work.append((backend, [t], ("e", "abs", "sqrt", "j"), tuple(qgen.method_metadata(a))))
     if tier != "quick":
         # a second sweep with a pool that contains the names func_adl's own lowering uses for its lambdas (acc, v)
         g = qgen.Gen("atlas")
